@@ -292,6 +292,41 @@ Section CacheFacts.
       + rewrite <- Hord. apply order_in. rewrite keys_to_sort, !in_app_iff. right. right. left. exact Hd.
   Qed.
 
+  (** the frozen table as a finite map: its domain and its values *)
+  Lemma has_all_par_frozen k : has k all_par = true -> frozen k.
+  Proof.
+    intro H. destruct (all_par_has k H) as [Hp|[Hs Hv]].
+    - left. apply cnt_In. apply cnt_In in Hp. pose proof (cnt_keys_plain_ias k (m_par m)). lia.
+    - destruct (s_class k Hs) as [_ [E|[_ [der [El _]]]]].
+      + left. unfold is_varpar in E. rewrite Hv in E. cbn [orb] in E. apply has_In. exact E.
+      + right. split; [exact Hs|]. eapply lookup_In_keys. exact El.
+  Qed.
+
+  Lemma all_par_dom k :
+    has k all_par = true <-> In k (keys (m_par m)) \/ (In k (keys (m_der m)) /\ OnlyParams m k).
+  Proof.
+    split.
+    - intro H. destruct (has_all_par_frozen k H) as [Hp|[Hs Hd]]; [left; exact Hp|right].
+      apply classification. apply filter_In. split; assumption.
+    - intros [Hp|Hd]; [apply frozen_has; left; exact Hp|].
+      apply classification in Hd. apply filter_In in Hd. apply Hd.
+  Qed.
+
+  Lemma all_par_val k : has k all_par = true -> lookup k all_par = lookup k dependent.
+  Proof. intro H. apply frozen_all_par. apply has_all_par_frozen. exact H. Qed.
+
+  Lemma a_dom k : In k a <-> In k (keys (m_par m)) \/ (In k (keys (m_der m)) /\ OnlyParams m k).
+  Proof.
+    split.
+    - intro H. apply all_par_dom. apply frozen_has. apply a_frozen. exact H.
+    - intros [Hp|Hd].
+      + apply (proj1 (proj2 (proj2 (split_basic m _ _ _ _ _ Hsplit)))). exact Hp.
+      + assert (Hh : has k all_par = true) by (apply all_par_dom; right; exact Hd).
+        destruct Hd as [Hd _].
+        destruct (all_par_has k Hh) as [Hp|[Hs _]]; [names_contra m HWF k|].
+        apply (static_der k Hs Hd).
+  Qed.
+
   (** C13-a *)
   Lemma c13a_core :
     lookup time_name dependent = Some 0%Z
@@ -547,6 +582,20 @@ Section CacheFacts.
         apply has_false in Ef. apply Ef. apply Hnts. apply order_in. apply s_in_order. exact Hs.
     - intros nm c Hin _ Hk. destruct (to_sort_outs_strong m HWF nm c k Hin Hk) as [[-> Hns]|Hs]; [|contradiction].
       apply Hns. apply Hnts. eapply in_keys. exact Hin.
+  Qed.
+
+  (** a variable that was not supplied is not bound in the returned table *)
+  Lemma popped_unsupplied_var x : In x (keys (m_var m)) -> ~ In x (keys vars) -> lookup x popped = None.
+  Proof.
+    intros Hx Hns. rewrite popped_lookup by (intro Hd; names_contra m HWF x).
+    rewrite e1_frame.
+    - rewrite args0_notvar; [|intros ->; names_contra m HWF time_name|intro Hd; names_contra m HWF x|exact Hns].
+      apply has_lookup_None. destruct (has x all_par) eqn:Eh; [exfalso|reflexivity].
+      destruct (has_all_par_frozen x Eh) as [H|[_ H]]; names_contra m HWF x.
+    - intros nm c Hin Hd Hk. destruct (to_sort_outs m nm c x Hin Hk) as [->|Hs]; [|names_contra m HWF x].
+      destruct (d_class nm Hd) as [E|E].
+      + unfold is_flux in E. apply orb_true_iff in E. destruct E as [E|E]; names_contra m HWF nm.
+      + unfold is_varpar in E. apply orb_false_iff in E. destruct E as [E _]. names_contra m HWF nm.
   Qed.
 
   (** every flux name is bound in the returned table *)
